@@ -22,8 +22,8 @@ number of files and folders: the shell reads the generated script as exactly the
 queue is exactly the set of regular files that are neither kept nor below a kept path, the rmdir queue is exactly the set
 of non-root directories that are neither kept, nor below a kept path, nor contain a kept path or a symbolic link — is
 proved for every tree with distinct sibling names, every keep set and every nesting depth (`C04_files_exact`,
-`C04_folders_exact`, `C04_symlink_never_queued`), by mutual induction over the tree.  Not proved: that the rmdir queue's
-order (post-order) never meets a non-empty directory (`execQueues ≠ none`); the harness executes the queues.
+`C04_folders_exact`, `C04_symlink_never_queued`), by mutual induction over the tree; and executing the two queues in order
+never meets a non-empty directory and leaves exactly the specified survivors (`C04_exec_exact`).
 -/
 namespace AptMirror
 open Str Script
@@ -198,6 +198,34 @@ theorem C04_folders_exact (keep : List Path) (root : Node) (hwf : wfNode root) (
       · exact hcont e he ⟨hpp, hp⟩
 
 open Clean in
+/-- **C04 (nothing outside the tree is ever queued).** Every queued path is an entry of the scanned tree (a regular file for
+    the unlink queue, a directory for the rmdir queue): neither queue can name a path outside the cleaner's root. -/
+theorem C04_queued_inside (keep : List Path) (root : Node) (hwf : wfNode root) (p : Path) :
+    (p ∈ (scan keep root).filesQ → (p, Kind.file) ∈ flattenNode [] root) ∧
+    (p ∈ (scan keep root).foldersQ → (p, Kind.dir) ∈ flattenNode [] root ∧ p ≠ []) := by
+  constructor
+  · intro h; exact ((C04_files_exact keep root p).mp h).1
+  · intro h
+    have := (C04_folders_exact keep root hwf p).mp h
+    exact ⟨this.1, ((spec_dir_false keep _ p).mp this.2).1⟩
+
+open Clean in
+/-- **C04 (kept content survives).** A kept path, and every path below a kept path, is in neither queue. -/
+theorem C04_kept_survives (keep : List Path) (root : Node) (hwf : wfNode root) (k p : Path) (hk : k ∈ keep)
+    (hp : isPrefix k p = true) : p ∉ (scan keep root).filesQ ∧ p ∉ (scan keep root).foldersQ := by
+  constructor
+  · intro h
+    have := ((spec_file_false keep _ p).mp ((C04_files_exact keep root p).mp h).2)
+    rcases prefix_cases hp with rfl | hpp
+    · exact this.1 hk
+    · rw [this.2 k hk] at hpp; cases hpp
+  · intro h
+    have := ((spec_dir_false keep _ p).mp ((C04_folders_exact keep root hwf p).mp h).2)
+    rcases prefix_cases hp with rfl | hpp
+    · exact this.2.1 hk
+    · rw [this.2.2.1 k hk] at hpp; cases hpp
+
+open Clean in
 /-- **C04 (symbolic links are never removed).** In a tree with distinct sibling names, a path that is a symbolic link is in
     neither queue. -/
 theorem C04_symlink_never_queued (keep : List Path) (root : Node) (hwf : wfNode root) (p : Path)
@@ -211,6 +239,135 @@ theorem C04_symlink_never_queued (keep : List Path) (root : Node) (hwf : wfNode 
     have := ((C04_folders_exact keep root hwf p).mp hq).1
     have := flattenNode_unique [] root hwf _ this _ h rfl
     cases this
+
+open Clean in
+/-- every entry of the tree below a queued directory is itself queued (a file for unlinking, a directory for removal) -/
+theorem below_queued (keep : List Path) (root : Node) (hwf : wfNode root) (d : Path) (hd : d ∈ (scan keep root).foldersQ)
+    (e : Path × Kind) (he : e ∈ flattenNode [] root) (hpp : properPrefix d e.1 = true) :
+    (e.2 = Kind.file ∧ e.1 ∈ (scan keep root).filesQ) ∨ (e.2 = Kind.dir ∧ e.1 ∈ (scan keep root).foldersQ) := by
+  obtain ⟨hdm, hds⟩ := (C04_folders_exact keep root hwf d).mp hd
+  obtain ⟨hdne, hdk, hdu, hdc⟩ := (spec_dir_false keep _ d).mp hds
+  have hnotkept : e.1 ∉ keep := fun hk => hdc e he ⟨hpp, Or.inr hk⟩
+  have hnoanc : ∀ k ∈ keep, properPrefix k e.1 = false := by
+    intro k hk
+    cases hkp : properPrefix k e.1 with
+    | false => rfl
+    | true =>
+      rcases prefix_comparable k d e.1 (proper_isPrefix hkp) (proper_isPrefix hpp) with h | h
+      · rcases prefix_cases h with rfl | h'
+        · exact absurd hk hdk
+        · rw [hdu k hk] at h'; cases h'
+      · have hkd : (k, Kind.dir) ∈ flattenNode [] root := flattenNode_ancestor [] root e he k rfl hkp
+        exact absurd ⟨h, Or.inr hk⟩ (hdc (k, Kind.dir) hkd)
+  rcases e with ⟨p, kd⟩
+  cases kd with
+  | file =>
+    left
+    exact ⟨rfl, (C04_files_exact keep root p).mpr ⟨he, (spec_file_false keep _ p).mpr ⟨hnotkept, hnoanc⟩⟩⟩
+  | symlink => exact absurd ⟨hpp, Or.inl rfl⟩ (hdc _ he)
+  | dir =>
+    right
+    refine ⟨rfl, (C04_folders_exact keep root hwf p).mpr ⟨he, (spec_dir_false keep _ p).mpr ⟨?_, hnotkept, hnoanc, ?_⟩⟩⟩
+    · intro h0
+      simp only at hpp
+      rw [h0] at hpp
+      obtain ⟨x, r, hr⟩ := (properPrefix_iff _ _).mp hpp
+      simp at hr
+    · intro x hx hc
+      apply hdc x hx
+      refine ⟨?_, hc.2⟩
+      obtain ⟨a, r, hr⟩ := (properPrefix_iff _ _).mp hpp
+      obtain ⟨b, t, ht⟩ := (properPrefix_iff _ _).mp hc.1
+      simp only at hr ht
+      exact (properPrefix_iff _ _).mpr ⟨a, r ++ b :: t, by rw [ht, hr]; simp⟩
+
+open Clean in
+/-- **C04 (executing the queues leaves exactly the specified survivors).** In a tree with distinct sibling names: unlinking
+    the file queue and then removing the directory queue in order never meets a non-empty directory, and what is left is
+    exactly the set of entries the specification lets survive — for every tree, keep set and nesting depth. -/
+theorem C04_exec_exact (keep : List Path) (root : Node) (hwf : wfNode root) :
+    execQueues (flattenNode [] root) (scan keep root) =
+      some ((flattenNode [] root).filter (specSurvives keep (flattenNode [] root))) := by
+  have hpw : ([] ++ (scan keep root).foldersQ).Pairwise NotAbove := by
+    simpa [scan] using foldersQ_pairwise_node keep true [] root hwf
+  have hclosed : ∀ d ∈ [] ++ (scan keep root).foldersQ,
+      ∀ e ∈ (flattenNode [] root).filter (fun e => !((scan keep root).filesQ.contains e.1)),
+      properPrefix d e.1 = true → e.1 ∈ [] ++ (scan keep root).foldersQ := by
+    intro d hd e he hpp
+    simp only [List.nil_append] at hd ⊢
+    simp only [List.mem_filter, Bool.not_eq_true'] at he
+    rcases below_queued keep root hwf d hd e he.1 hpp with ⟨_, hq⟩ | ⟨_, hq⟩
+    · have : (scan keep root).filesQ.contains e.1 = true := List.contains_iff_mem.mpr hq
+      rw [he.2] at this; cases this
+    · exact hq
+  have hgo := rmdir_go _ (scan keep root).foldersQ [] hpw hclosed
+  have hfs1 : ((flattenNode [] root).filter (fun e => !((scan keep root).filesQ.contains e.1))).filter (fun e => !(([] : List Path).contains e.1))
+      = (flattenNode [] root).filter (fun e => !((scan keep root).filesQ.contains e.1)) := by
+    simp
+  rw [hfs1] at hgo
+  unfold execQueues
+  show List.foldlM rmdirStep _ _ = _
+  rw [hgo]
+  congr 1
+  rw [List.filter_filter]
+  apply List.filter_congr
+  intro e he
+  simp only [List.nil_append]
+  rcases e with ⟨p, kd⟩
+  have hfq : (scan keep root).filesQ.contains p = true ↔ p ∈ (scan keep root).filesQ := List.contains_iff_mem
+  have hdq : (scan keep root).foldersQ.contains p = true ↔ p ∈ (scan keep root).foldersQ := List.contains_iff_mem
+  cases kd with
+  | symlink =>
+    have hs := C04_symlink_never_queued keep root hwf p he
+    have h1 : (scan keep root).filesQ.contains p = false := by
+      cases h : (scan keep root).filesQ.contains p with
+      | false => rfl
+      | true => exact absurd (hfq.mp h) hs.1
+    have h2 : (scan keep root).foldersQ.contains p = false := by
+      cases h : (scan keep root).foldersQ.contains p with
+      | false => rfl
+      | true => exact absurd (hdq.mp h) hs.2
+    simp only [h1, h2, specSurvives, Bool.not_false, Bool.and_self]
+  | file =>
+    have h2 : (scan keep root).foldersQ.contains p = false := by
+      cases h : (scan keep root).foldersQ.contains p with
+      | false => rfl
+      | true =>
+        have := ((C04_folders_exact keep root hwf p).mp (hdq.mp h)).1
+        have := flattenNode_unique [] root hwf _ this _ he rfl
+        cases this
+    cases hsp : specSurvives keep (flattenNode [] root) (p, Kind.file) with
+    | false =>
+      have : (scan keep root).filesQ.contains p = true := hfq.mpr ((C04_files_exact keep root p).mpr ⟨he, hsp⟩)
+      simp only [this, h2, hsp, Bool.not_false, Bool.not_true, Bool.and_true, Bool.and_false, Bool.true_and, Bool.false_and]
+    | true =>
+      have : (scan keep root).filesQ.contains p = false := by
+        cases h : (scan keep root).filesQ.contains p with
+        | false => rfl
+        | true =>
+          have := ((C04_files_exact keep root p).mp (hfq.mp h)).2
+          rw [hsp] at this; cases this
+      simp only [this, h2, hsp, Bool.not_false, Bool.not_true, Bool.and_true, Bool.and_false, Bool.true_and, Bool.false_and]
+  | dir =>
+    have h1 : (scan keep root).filesQ.contains p = false := by
+      cases h : (scan keep root).filesQ.contains p with
+      | false => rfl
+      | true =>
+        have := ((C04_files_exact keep root p).mp (hfq.mp h)).1
+        have := flattenNode_unique [] root hwf _ this _ he rfl
+        cases this
+    cases hsp : specSurvives keep (flattenNode [] root) (p, Kind.dir) with
+    | false =>
+      have : (scan keep root).foldersQ.contains p = true := hdq.mpr ((C04_folders_exact keep root hwf p).mpr ⟨he, hsp⟩)
+      simp only [this, h1, hsp, Bool.not_false, Bool.not_true, Bool.and_true, Bool.and_false, Bool.true_and, Bool.false_and]
+    | true =>
+      have : (scan keep root).foldersQ.contains p = false := by
+        cases h : (scan keep root).foldersQ.contains p with
+        | false => rfl
+        | true =>
+          have := ((C04_folders_exact keep root hwf p).mp (hdq.mp h)).2
+          rw [hsp] at this; cases this
+      simp only [this, h1, hsp, Bool.not_false, Bool.not_true, Bool.and_true, Bool.and_false, Bool.true_and, Bool.false_and]
 
 /-! ### non-vacuity: a concrete tree -/
 open Clean in
